@@ -1,13 +1,20 @@
 import CkbVerif.Driver.Util
 import CkbVerif.Model.Rules
 import CkbVerif.Model.RulesIndex
+import CkbVerif.Model.RulesBody
 
 /-! Line-protocol driver for C03 (protocol: see harness/n03/src/c03.rs).
 
 ```
 cfg k=v …                 consensus parameters that differ from the generated defaults   → ok
 genesis id=0 ts=… work=…   the genesis block, resets the chain                            → ok
-blk <id> k=v …            defines a block (header fields, body features, context oracles) → ok
+blk <id> k=v …            defines a block (header fields, body structure, context oracles) → ok
+                          `tx=<id:short:ins:outs:datas:nwit:wit0>;…` is the structure of the transactions
+                          (ins `null.since/…`, outs `hastype.lockhashtype/…`, datas `len/…`, wit0 `x` absent,
+                          `e` malformed CellbaseWitness, else the lock's hash-type byte): the cellbase
+                          features, tx ids and committed ids are derived from it by `Blk.withTxs`;
+                          `tlargs=<n>` (args length of the reward target lock) makes the model compute
+                          `is_lack_of_capacity` of the reward probe cell from `xrew`
 submit <id> now=<ms>      HeaderVerifier, then the chain service                          → <verdict> tip=<id> st=<status>
 idx n=<ids> t=<txs> h=<height> e=<epoch>
                           the store indexes as `attach_block` / `detach_block` left them     → main=… uncles=… at=… tx=… ep=…
@@ -76,7 +83,39 @@ def kvUncles (ts : List String) : List Uncle :=
   | some v => (v.splitOn ";").filterMap parseUncle
   | none => []
 
-def parseBlk (id : Nat) (ts : List String) : Blk :=
+def slashList (s : String) : List String := if s == "-" then [] else s.splitOn "/"
+
+def parseIn (s : String) : Option TxIn :=
+  match s.splitOn "." with
+  | [p, n] => do pure { prevNull := p == "1", since := (← parseNat? n) }
+  | _ => none
+
+def parseOut (s : String) : Option TxOut :=
+  match s.splitOn "." with
+  | [t, h] => do pure { hasType := t == "1", lockHashType := (← parseNat? h) }
+  | _ => none
+
+/-- `id:short:ins:outs:datas:nwit:wit0` -/
+def parseTx (s : String) : Option Tx :=
+  match s.splitOn ":" with
+  | [i, sh, ins, outs, ds, nw, w] => do
+    let i ← parseNat? i
+    let sh ← parseNat? sh
+    let ins ← (slashList ins).mapM parseIn
+    let outs ← (slashList outs).mapM parseOut
+    let ds ← (slashList ds).mapM parseNat?
+    let nw ← parseNat? nw
+    let w ← if w == "x" then some Wit.absent else if w == "e" then some Wit.malformed else (parseNat? w).map Wit.lock
+    pure { id := i, shortId := sh, inputs := ins, outputs := outs, datas := ds, nWitnesses := nw, wit0 := w }
+  | _ => none
+
+def kvTxs (ts : List String) : Option (List Tx) :=
+  match kv ts "tx" with
+  | some "-" => some []
+  | some v => some ((v.splitOn ";").filterMap parseTx)
+  | none => none
+
+def parseBlkFeatures (id : Nat) (ts : List String) : Blk :=
   { id := id
     parent := kvNat ts "parent" 0
     number := kvNat ts "num" 0
@@ -120,6 +159,17 @@ def parseBlk (id : Nat) (ts : List String) : Blk :=
     cbLockEq := kvBool ts "cblockeq" true
     txsOk := kvBool ts "txsok" true
     cycles := kvNat ts "cycles" 0 }
+
+/-- a block line: the features given as keys; with `tx=…` the cellbase features, the transaction ids
+and the committed ids are derived from the structure; with `tlargs=…` so is the reward-probe verdict -/
+def parseBlk (id : Nat) (ts : List String) : Blk :=
+  let b := parseBlkFeatures id ts
+  let b := match kvTxs ts with
+    | some txs => b.withTxs txs
+    | none => b
+  match kv ts "tlargs" with
+  | some v => { b with rewardInsufficient := (rewardLack b.expReward ((parseNat? v).getD 0)).getD true }
+  | none => b
 
 def errName : Err → String
   | .powInvalid => "pow" | .unknownParent => "badparent" | .parentInvalid => "badparent" | .orphan => "badparent"
